@@ -480,6 +480,7 @@ type dstSession struct {
 	pending []pendingWrite
 	closed  bool
 	ctx     context.Context
+	stopped bool // Stop was called: a batching destination flushes what it holds
 }
 
 func newDstSys(w *World, cfg DstCfg, isDLQ bool) *DstSys {
@@ -566,6 +567,7 @@ func (p *simDest) Stop(ctx context.Context, req pconnector.DestinationStopReques
 	sessN := 0
 	if p.sess != nil {
 		sessN = p.sess.n
+		p.sess.stopped = true
 	}
 	p.sys.w.log(Event{Kind: "DST_STOP", Ent: p.sys.cfg.ID, Inc: p.inc, Sess: sessN, Pos: []string{posHex(req.LastPosition)}})
 	return pconnector.DestinationStopResponse{}, nil
@@ -666,7 +668,12 @@ func stampsOf(recs []opencdc.Record) string {
 
 func (s *simDstStream) Recv() (pconnector.DestinationRunResponse, error) {
 	w, sys, sess := s.p.w(), s.p.sys, s.p.sess
-	d := w.park(s.ctx, s.p.kind("ackrecv"), sys.cfg.ID, s.p.inc, func() bool { return len(sess.pending) > 0 }, "dst.ack.err", "stall")
+	d := w.park(s.ctx, s.p.kind("ackrecv"), sys.cfg.ID, s.p.inc, func() bool {
+		if hb := sys.cfg.HoldBatch; hb > 1 && !sess.stopped && !sys.isDLQ {
+			return len(sess.pending) >= hb // (an SDK destination with sdk.batch.size > 1 and no batch delay)
+		}
+		return len(sess.pending) > 0
+	}, "dst.ack.err", "stall")
 	if d.fault != "" {
 		if d.fault == "ctx" {
 			return pconnector.DestinationRunResponse{}, s.ctx.Err()
